@@ -35,6 +35,7 @@ def corpus():
          'SpSWwKK',               # submission while the function runs
          'apfSpK', 'aapyfpK',     # failing awaitable does not take others down
          'SpkupK', 'ScpuK', 'cSupK', 'SpKcWupK',   # foreign halves of _put
+         'npK', 'cnpK', 'SpKnpK', 'SpKcnpK', 'SnpK', 'SpknpK', 'nnpK',   # ... from a foreign thread that runs its own event loop
          'EpSpK', 'gepSpK',       # empty producers: no call, later ones still delivered
          'DpKDpK']                # same value again after it was delivered: delivered again
     return [c for c in (B.letters_case(T, w) for T in (8, 100) for w in W) if c]
@@ -42,7 +43,7 @@ def corpus():
 
 def gen_exhaustive(tier, seed):
     out = B.word_cases(ALPHA, 4 if tier == 'quick' else 5)
-    out += B.foreign_cases(maxlen=3 if tier == 'quick' else 4)
+    out += B.foreign_cases(maxlen=3 if tier == 'quick' else 4, puts='un')
     return out
 
 
